@@ -109,8 +109,14 @@ def run(ck, prog):
         "punctuation spelling and one representative of every token class, yields the reference kind "
         "(this also shows no earlier arm shadows a later one for those inputs); (R14.4) the trivia "
         "predicates on TokenKind and SyntaxKind agree under From<TokenKind>; (R14.5) directive table. "
-        "NOT decided (properties of the scanner loops' regular languages): escape handling in strings, "
-        "nested block comments, number validation, digit-leading identifiers, maximal munch.")
+        "Scanner loops: (R14.6) every integer parse reachable from Lexer::number targets an unsigned 64-bit integer "
+        "unless it runs only for lexemes starting with `-`; (R14.7) the transition table of Lexer::string, read off its "
+        "MIR by evaluating one loop iteration for every (flag state, character class) pair, has the transitions the "
+        "reference requires for valid literals (escape of exactly the next character, the five escapes, closing quote); "
+        "(R14.8) Lexer::block_comment keeps a nesting depth whose transitions for every (depth 1..3, character, next "
+        "character) are the reference ones and the token ends exactly at depth 0; (R14.9) the scanner entered on a digit "
+        "can return Id. Not decided: code fragments, variable names, line comments, the exact regular language of "
+        "numbers, maximal munch between token classes.")
     ck.trusted = ["rustc MIR construction and constant evaluation", "unscanny::Scanner API contract",
                   "reference tables in tdq/ref.py transcribed from the TableGen Programmer's Reference"]
     ck.rule("R14.1", "lexer keyword table == reference reserved words, each with its kind; nothing else is a keyword")
@@ -118,6 +124,7 @@ def run(ck, prog):
     ck.rule("R14.3", "next_token dispatch: reference punctuation spellings and token-class representatives reach the reference kind")
     ck.rule("R14.4", "TokenKind::is_trivia and SyntaxKind::is_trivia agree under From<TokenKind>")
     ck.rule("R14.5", "preprocessor directive table == reference directives")
+    ck.rule("R14.10", "identifier and variable-name character classes equal the reference classes")
     ck.rule("R14.9", "digit-leading identifiers: the scanner entered on a digit can produce an identifier")
     ck.rule("R14.8", "block comment scanner keeps a nesting depth: `/*` opens, `*/` closes, the token ends at depth 0")
     ck.rule("R14.7", "string literal scanner: transitions required for valid literals (escapes, closing quote)")
@@ -251,6 +258,41 @@ def run(ck, prog):
 
     # R14.6 -----------------------------------------------------------------------
     integer_width(ck, prog)
+    # R14.10 ----------------------------------------------------------------------
+    # identifier / variable-name character classes: the predicates the scanners pass to eat_if / eat_while are
+    # evaluated on every ASCII character and on representatives of non-ASCII letters and digits
+    probes = [chr(c) for c in range(32, 127)] + ["\u00e9", "\u03b1", "\u0661", "\u4e2d"]
+    want = {
+        "is_identifier_start": lambda c: c.isascii() and (c.isalpha() or c == "_"),
+        "is_identifier_continue": lambda c: c.isascii() and (c.isalnum() or c == "_"),
+    }
+    for name, ref_pred in want.items():
+        fn = None
+        for pth in prog.bodies:
+            if pth.startswith("syntax::lexer") and pth.endswith("::" + name):
+                fn = pth
+        ck.anchor(fn is not None, "lexer predicate %s not found" % name)
+        bad = []
+        for ch in probes:
+            got = paths.eval_char_pred(prog, fn, ch)
+            ck.anchor(got is not None, "lexer predicate %s could not be evaluated on %r" % (name, ch))
+            if got != ref_pred(ch):
+                bad.append(ch)
+        ck.ob("R14.10", "class:%s" % name, not bad, "%s agrees with the reference class on %d probe characters" % (name, len(probes)),
+              msg="lexer predicate %s differs from the TableGen identifier character class on %s" % (name, bad[:12]))
+    for meth, preds in (("identifier", ["is_identifier_continue"]), ("var_name", ["is_identifier_start", "is_identifier_continue"])):
+        mb = find_method(prog, meth)
+        ck.anchor(mb is not None, "Lexer::%s not found" % meth)
+        used = set()
+        for i, t in mb.calls():
+            for ga in (t["f"].get("args") or []):
+                ty = ga.get("ty") or ""
+                for pn in want:
+                    if pn in ty:
+                        used.add(pn)
+        ck.ob("R14.10", "uses:%s" % meth, set(preds) <= used, "Lexer::%s scans with %s" % (meth, sorted(used)),
+              msg="Lexer::%s no longer scans with the identifier predicates %s (uses %s)" % (meth, preds, sorted(used)))
+
     # R14.9 -----------------------------------------------------------------------
     nb = find_method(prog, "number")
     ck.anchor(nb is not None, "Lexer::number not found")
